@@ -396,3 +396,91 @@ func c16ParseJ2K(d []byte) (*c16J2k, *c16Err) {
 func (j *c16J2k) summary() string {
 	return fmt.Sprintf("%dx%d c=%d ssiz=%v tiles=%d parts=%d levels=%d layers=%d prog=%d tr=%d", j.Xsiz, j.Ysiz, j.Csiz, j.Ssiz, j.NumTiles, len(j.Parts), j.Levels, j.Layers, j.Prog, j.Transform)
 }
+
+// c16LenientJ2K splits a codestream WITHOUT trusting Psot: main-header segments by their length fields, then
+// tile-parts from one `FF90 000A` to the next (or to the final EOC). It is used only to feed the correspondence
+// op `c16-j2k-tiles` when the strict walk fails, so that a wrong Psot/TLM shows up as a model/code disagreement
+// and not only as a search failure. (Bodies cannot contain FF90: that is what the strict walk checks.)
+func c16LenientJ2K(d []byte) *c16J2k {
+	j := &c16J2k{}
+	n := len(d)
+	if n < 6 || d[0] != 0xFF || d[1] != 0x4F {
+		return nil
+	}
+	pos := 2
+	for {
+		if pos+4 > n || d[pos] != 0xFF {
+			return nil
+		}
+		m := int(d[pos+1])
+		if m == 0x90 {
+			break
+		}
+		L := c16be16(d, pos+2)
+		if L < 2 || pos+2+L > n {
+			return nil
+		}
+		pl := d[pos+4 : pos+2+L]
+		switch m {
+		case 0x51:
+			if len(pl) < 36 {
+				return nil
+			}
+			j.Xsiz, j.Ysiz, j.XTsiz, j.YTsiz = c16be32(pl, 2), c16be32(pl, 6), c16be32(pl, 18), c16be32(pl, 22)
+			if j.XTsiz < 1 || j.YTsiz < 1 {
+				return nil
+			}
+			j.NumTiles = ((j.Xsiz + j.XTsiz - 1) / j.XTsiz) * ((j.Ysiz + j.YTsiz - 1) / j.YTsiz)
+		case 0x5C:
+			if len(pl) < 1 {
+				return nil
+			}
+			j.Sqcd = int(pl[0])
+			if j.Sqcd&0x1F == 0 {
+				for _, b := range pl[1:] {
+					j.SPqcd = append(j.SPqcd, int(b))
+				}
+			} else {
+				for k := 1; k+1 < len(pl); k += 2 {
+					j.SPqcd = append(j.SPqcd, c16be16(pl, k))
+				}
+			}
+		case 0x55:
+			if !j.HasTLM {
+				j.TLMStart = pos
+			}
+			j.HasTLM = true
+			j.TLMEnd = pos + 2 + L
+		}
+		pos += 2 + L
+	}
+	j.MainEnd = pos
+	if n < pos+2 || d[n-2] != 0xFF || d[n-1] != 0xD9 {
+		return nil
+	}
+	for pos < n-2 {
+		if pos+14 > n || d[pos] != 0xFF || d[pos+1] != 0x90 {
+			return nil
+		}
+		tp := c16TilePart{Isot: c16be16(d, pos+4), Psot: c16be32(d, pos+6), TPsot: int(d[pos+10]), TNsot: int(d[pos+11]), Start: pos}
+		q := pos + 12
+		for q+2 <= n && !(d[q] == 0xFF && d[q+1] == 0x93) {
+			if q+4 > n || d[q] != 0xFF {
+				return nil
+			}
+			q += 2 + c16be16(d, q+2)
+		}
+		if q+2 > n {
+			return nil
+		}
+		tp.HdrLen = q - (pos + 12)
+		end := q + 2
+		for end < n-2 && !(end+4 <= n && d[end] == 0xFF && d[end+1] == 0x90 && d[end+2] == 0x00 && d[end+3] == 0x0A) {
+			end++
+		}
+		tp.Body = d[q+2 : end]
+		j.Parts = append(j.Parts, tp)
+		pos = end
+	}
+	return j
+}
